@@ -60,8 +60,9 @@ class Fault(Exception):
     """machinery fault -> exit 2"""
 
 
-def run(cmd, timeout=None, cwd=None, mem=True, tmpdir=None):
-    pre = ('ulimit -v %d; ' % MEM_KB) if mem else ''
+def run(cmd, timeout=None, cwd=None, mem=True, tmpdir=None, mem_gb=None):
+    cap = MEM_KB if not mem_gb else max(MEM_KB, int(mem_gb * 1.6 * 1024 * 1024))
+    pre = ('ulimit -v %d; ' % cap) if mem else ''
     if tmpdir:
         # cbmc --external-sat-solver leaves multi-GB CNF files in $TMPDIR when it is killed: keep them inside the work dir
         pre += 'export TMPDIR=%s; ' % shlex.quote(tmpdir)
@@ -431,7 +432,7 @@ def solve(chk, r, tier, inline_all=False, loop_contracts=None, unwind_override=N
         t_be = tmo if bi == len(backends) - 1 else min(tmo, int(chk.get('first_timeout', tier) or 90))
         need = MEMBUDGET.acquire(int(chk.get('mem', tier) or 2))
         try:
-            rc, out, secs = run(cmd, timeout=t_be, tmpdir=r.dir)
+            rc, out, secs = run(cmd, timeout=t_be, tmpdir=r.dir, mem_gb=need)
         finally:
             MEMBUDGET.release(need)
         for f in os.listdir(r.dir):
